@@ -3,6 +3,7 @@ import SMGo.Spec.Bytes
 import SMGo.Spec.SM4Fast
 import SMGo.Spec.GCM
 import SMGo.Model.GCMAlgo
+import Driver.GCMGlue
 open SMGo
 
 namespace Driver.GCM
@@ -54,6 +55,11 @@ def handle (toks : List String) : Option String :=
     match parseBytes h, parseBytes data with
     | some h, some data => some ("ok " ++ Bytes.toHex (Spec.GCM.natToBlock (Spec.GCM.ghash (Spec.GCM.blockToNat h) (Spec.GCM.pad16 data))))
     | _, _ => some "bad-op"
+  -- C10: the Go glue on the slice heap, and the buffer contract itself (Driver/GCMGlue.lean)
+  | "gcm.sealglue" :: _ => Driver.GCMGlue.handle toks
+  | "gcm.openglue" :: _ => Driver.GCMGlue.handle toks
+  | "gcm.sealglue.spec" :: _ => Driver.GCMGlue.handle toks
+  | "gcm.openglue.spec" :: _ => Driver.GCMGlue.handle toks
   | _ => none
 
 end Driver.GCM
